@@ -3,6 +3,8 @@ import Swat4.Model.QueueSys
 import Swat4.Properties.C10
 import Swat4.Lemmas.QueueSys
 import Swat4.Lemmas.QueueDeliver
+import Swat4.Lemmas.QueuePopBound
+import Swat4.Lemmas.QueueEnqOwner
 /-!
 # C12 — Every queued probe is delivered at most once, on time and in order
 
@@ -813,3 +815,390 @@ UUID (122 random bits); the expression is read from the source on every run.  A 
 theorem facts_item_id : Facts.probeItemIDExprs = ["uuid.NewString()"] := by decide
 
 end Swat4.C12
+
+/-! # Additions (review round 2): "a probe whose ready time is not earlier than its expiry is never queued"
+
+**The clause as written is false of the model and of the code.**  `never_queued` covers the only case the code tests:
+*both* bounds explicit (`!after.IsZero() && !before.IsZero() && (after.After(before) || after.Equal(before))`,
+`probes.go` `enqueue`).  When `after` is the zero time the ready time is `clock.Now()`, read *after* that test, and is never
+compared with `before`: `enqueue p none (some b)` with `clock ≥ b` **is queued** (`implicit_ready_past_expiry_is_queued`).
+This is the call shape of `refreshservers` (`AddBetween(ctx, prb, repositories.NC, deadline)`), whose deadline is
+`now + interval` and therefore in the future for every positive interval — a latent quirk, not a reachable fault of the
+shipped wiring.  What holds instead:
+
+* `never_queued_explicit`: the call issues no command **iff** both bounds are explicit and `after ≥ before`; in every
+  other case — in particular for an implicit ready time, whatever the clock — its single command queues the probe;
+* `implicit_ready_past_expiry_never_delivered`: such an entry (ready time *after* its expiry) is never handed to a
+  consumer: the first pop batch that takes it counts it as expired (from `not_early` + `not_late`, monotone clock);
+* the boundary `ready = expiry` is different: such an entry is queued **and can be delivered**, exactly at the instant
+  `clock = ready = expiry` (`isItemExpired` is `expires.Before(now)`, strict) — `ready_eq_expiry_delivered_witness`,
+  `ready_eq_expiry_only_at_instant`. -/
+namespace Swat4.C12
+open Swat4 Std
+
+/-- **the clause that holds** ("never queued", explicit bounds): an `enqueue` call finishes without issuing any storage
+command **iff** both `after` and `before` are explicit and `after ≥ before`.  In every other case the call stands at its
+(single) `HSET+ZADD` batch, which — `enqueue_one_batch`, `enqueue_uses_fresh` — queues the probe whatever the clock is:
+there is no second test. -/
+theorem never_queued_explicit (p : Probe) (after before : GoTime) :
+    (QOp.enqueue p after before).begin = .done .unit ↔ ∃ a b, after = some a ∧ before = some b ∧ a ≥ b := by
+  cases after with
+  | none => simp [QOp.begin]
+  | some a =>
+    cases before with
+    | none => simp [QOp.begin]
+    | some b =>
+      by_cases h : a ≥ b
+      · simp [QOp.begin, h]
+      · simp [QOp.begin, h]
+
+/-- … and otherwise it is at `.start`: the call is going to execute its batch -/
+theorem queued_otherwise (p : Probe) (after before : GoTime) (h : ¬ ∃ a b, after = some a ∧ before = some b ∧ a ≥ b) :
+    (QOp.enqueue p after before).begin = .start := by
+  cases after with
+  | none => rfl
+  | some a =>
+    cases before with
+    | none => rfl
+    | some b =>
+      have : ¬ a ≥ b := fun hab => h ⟨a, b, rfl, rfl, hab⟩
+      simp [QOp.begin, this]
+
+/-- **the counter-example, for every store, clock and expiry**: an `enqueue` with an *implicit* ready time and an expiry
+`b` — **no hypothesis relating `clock` and `b`**, so in particular for `clock ≥ b` — is not dropped: the call stands at
+`.start`, and its batch stores the payload with expiry `b` and the queue entry with score `clock` under the fresh id.
+The ready time `clock` is never compared with `b`. -/
+theorem implicit_ready_always_queued (st : RStore) (clock : Int) (fresh : Nat) (p : Probe) (b : Int) :
+    (QOp.enqueue p none (some b)).begin = .start ∧
+    (qstep st clock fresh (.enqueue p none (some b)) .start).1.pItems = st.pItems.insert fresh (p, some b) ∧
+    (qstep st clock fresh (.enqueue p none (some b)) .start).1.pQueue = st.pQueue.insert fresh clock :=
+  ⟨rfl, rfl, rfl⟩
+
+/-- clock 100; producer 0 enqueues `wp1` with implicit ready time (→ 100) and expiry 50 (already past); consumer 1 is a `PopMany 1` -/
+def pastExpiry : QSys :=
+  { clock := 100
+    clients := [{ op := .enqueue wp1 none (some 50), pc := .start },
+                { op := .popMany 1, pc := .start }] }
+
+theorem pastExpiry_init : pastExpiry.Init := by
+  refine ⟨RStore.consistent_empty, fun id => by simp [pastExpiry], ?_⟩
+  intro c hc
+  simp only [pastExpiry, List.mem_cons, List.not_mem_nil, or_false] at hc
+  rcases hc with rfl | rfl <;> exact ⟨rfl, fun h => by cases h⟩
+
+set_option maxRecDepth 100000 in
+/-- **`implicit_ready_past_expiry_is_queued`** (concrete witness; the clause "a probe whose ready time is not earlier than
+its expiry is never queued" is FALSE of the model): at clock 100 the producer's `enqueue wp1 none (some 50)` is accepted —
+one enqueue record with ready time 100 ≥ expiry 50, and the entry sits in `probes:queue` (score 100) and `probes:items`
+(expiry 50).  `probes.go` does the same: the drop test requires `!after.IsZero()`. -/
+theorem implicit_ready_past_expiry_is_queued :
+    pastExpiry.Init ∧
+    ((reach pastExpiry [.run 0]).enqs.map fun e => (e.id, e.probe, e.expires, e.ready, e.clk)) = [(0, wp1, some 50, 100, 100)] ∧
+    (reach pastExpiry [.run 0]).sys.store.pQueue[0]? = some 100 ∧
+    (reach pastExpiry [.run 0]).sys.store.pItems[0]? = some (wp1, some 50) ∧
+    0 ∈ (pastExpiry.run [.run 0]).store.pQueue := by
+  refine ⟨pastExpiry_init, by rfl, by decide, by decide, ?_⟩
+  unfold QSys.run
+  rw [← ghost_faithful]
+  exact (RStore.mem_iff_getElem?_some).2 ⟨100, by decide⟩
+
+set_option maxRecDepth 100000 in
+/-- … and what happens to it: the consumer's pop batch takes it out and counts it as expired; the batch is empty -/
+theorem implicit_ready_past_expiry_dropped_witness :
+    (reach pastExpiry [.run 0, .run 1]).pops = [⟨0, 1, wp1, some 50, some 100, 100, false⟩] ∧
+    ((reach pastExpiry [.run 0, .run 1]).sys.clients[1]?).map (·.pc) = some (.done (.probes [] 1)) := ⟨by rfl, by rfl⟩
+
+/-- **`implicit_ready_past_expiry_never_delivered`**: an accepted enqueue whose ready time is *after* its expiry
+(`x < e.ready`: only possible with an implicit ready time, by `never_queued_explicit`) is never delivered.  For every
+interleaving with a monotone clock: every pop record of that id is `returned = false` (counted as expired, dropped), and
+the id has been handed to no consumer.  Follows from `not_early` (`e.ready ≤ d.clk`) and `not_late`
+(`returned → d.clk ≤ x`). -/
+theorem implicit_ready_past_expiry_never_delivered (s0 : QSys) (h0 : s0.Init)
+    (harr : ∀ c ∈ s0.clients, c.started = true → c.arrival ≤ s0.clock) (es : List QSysEv) (hm : Monotone es)
+    (e : GEnq) (he : e ∈ (reach s0 es).enqs) (x : Int) (hx : e.expires = some x) (hlt : x < e.ready) :
+    (∀ d ∈ (reach s0 es).pops, d.id = e.id → d.returned = false) ∧ ∀ j, ¬ HandedTo (reach s0 es) e.id j := by
+  have hG := (GInv.init h0).run es
+  have hend : ((reach s0 es).enqs.map (·.id)).Nodup := hG.enqInc.imp (fun h => Nat.ne_of_lt h)
+  have key : ∀ d ∈ (reach s0 es).pops, d.id = e.id → d.returned = false := by
+    intro d hd hid
+    obtain ⟨e', he', h1, _, h3, h4⟩ := not_early s0 h0 harr es hm d hd
+    have : e' = e := eq_of_nodup_map hend he' he (h1.trans hid)
+    subst this
+    cases hr : d.returned with
+    | false => rfl
+    | true =>
+      exfalso
+      have hexp' : d.expires = some x := by
+        obtain ⟨e'', he'', g1, _, g3, _⟩ := hG.popSrc d hd
+        have : e'' = e' := eq_of_nodup_map hend he'' he' (g1.trans h1.symm)
+        subst this
+        rw [← g3, hx]
+      rcases (not_late s0 h0 es d hd).1 hr with hn | ⟨y, hy, hle⟩
+      · rw [hexp'] at hn; cases hn
+      · rw [hexp'] at hy; cases hy; omega
+  refine ⟨key, ?_⟩
+  rintro j ⟨_, _, _, _, _, _, _, _, _, d, hdm, hid, _⟩
+  obtain ⟨h1, _, h3⟩ := mem_batchRecs.1 hdm
+  rw [key d h1 hid] at h3
+  cases h3
+
+/-- **the boundary `ready = expiry`**: an accepted enqueue whose ready time *equals* its expiry can be delivered, but
+only by a pop batch executing at exactly that instant (`d.clk = x`): `isItemExpired` is strict -/
+theorem ready_eq_expiry_only_at_instant (s0 : QSys) (h0 : s0.Init)
+    (harr : ∀ c ∈ s0.clients, c.started = true → c.arrival ≤ s0.clock) (es : List QSysEv) (hm : Monotone es)
+    (e : GEnq) (he : e ∈ (reach s0 es).enqs) (x : Int) (hx : e.expires = some x) (heq : e.ready = x)
+    (d : GPop) (hd : d ∈ (reach s0 es).pops) (hid : d.id = e.id) (hr : d.returned = true) : d.clk = x := by
+  have hG := (GInv.init h0).run es
+  have hend : ((reach s0 es).enqs.map (·.id)).Nodup := hG.enqInc.imp (fun h => Nat.ne_of_lt h)
+  obtain ⟨e', he', h1, _, _, h4⟩ := not_early s0 h0 harr es hm d hd
+  have : e' = e := eq_of_nodup_map hend he' he (h1.trans hid)
+  subst this
+  obtain ⟨e'', he'', g1, _, g3, _⟩ := hG.popSrc d hd
+  have : e'' = e' := eq_of_nodup_map hend he'' he' (g1.trans h1.symm)
+  subst this
+  rcases (not_late s0 h0 es d hd).1 hr with hn | ⟨y, hy, hle⟩
+  · rw [← g3, hx] at hn; cases hn
+  · rw [← g3, hx] at hy; cases hy; omega
+
+/-- clock 100; producer 0 enqueues `wp1` with implicit ready time (→ 100) and expiry exactly 100; consumer 1 is a `PopMany 1` -/
+def atExpiry : QSys :=
+  { clock := 100
+    clients := [{ op := .enqueue wp1 none (some 100), pc := .start },
+                { op := .popMany 1, pc := .start }] }
+
+set_option maxRecDepth 100000 in
+/-- **`ready_eq_expiry_delivered_witness`**: with ready time = expiry = 100 the probe is queued *and delivered* by a
+consumer popping at clock 100 (`returned = true`, batch `[wp1]`) — so "ready ≥ expiry ⇒ never queued" fails at the
+boundary even for delivery; one tick later (clock 101) the same entry is dropped as expired -/
+theorem ready_eq_expiry_delivered_witness :
+    (reach atExpiry [.run 0, .run 1]).pops = [⟨0, 1, wp1, some 100, some 100, 100, true⟩] ∧
+    ((reach atExpiry [.run 0, .run 1]).sys.clients[1]?).map (·.pc) = some (.done (.probes [wp1] 0)) ∧
+    ((reach atExpiry [.run 0, .tick 1, .run 1]).sys.clients[1]?).map (·.pc) = some (.done (.probes [] 1)) :=
+  ⟨by rfl, by rfl, by rfl⟩
+
+set_option maxRecDepth 100000 in
+/-- non-vacuity of `implicit_ready_past_expiry_never_delivered`: on `pastExpiry` with the schedule `[.run 0, .run 1]` all
+hypotheses hold for the (only) enqueue record, and the conclusion says its pop record was not returned -/
+example : ∀ j, ¬ HandedTo (reach pastExpiry [.run 0, .run 1]) 0 j := by
+  have harr : ∀ c ∈ pastExpiry.clients, c.started = true → c.arrival ≤ pastExpiry.clock := by
+    intro c hc hs
+    simp only [pastExpiry, List.mem_cons, List.not_mem_nil, or_false] at hc
+    rcases hc with rfl | rfl <;> cases hs
+  have hm : Monotone [.run 0, .run 1] := by
+    intro e he
+    simp only [List.mem_cons, List.not_mem_nil, or_false] at he
+    rcases he with rfl | rfl <;> trivial
+  have henqs : (reach pastExpiry [.run 0, .run 1]).enqs = [⟨0, 0, wp1, some 50, 100, 100⟩] := by rfl
+  exact (implicit_ready_past_expiry_never_delivered pastExpiry pastExpiry_init harr [.run 0, .run 1] hm
+    ⟨0, 0, wp1, some 50, 100, 100⟩ (by rw [henqs]; exact List.mem_singleton.2 rfl) 50 rfl (by decide)).2
+
+end Swat4.C12
+
+/-! # Additions (review round 2): how long a `PopMany` runs under interference
+
+`PopMany` has no WATCH / retry loop (nothing like C09's `MaxAttempts`), but it loops "until the batch is full or a round
+finds nothing", and a round that finds only *expired* entries leaves the batch as it was.  So there is **no bound in terms
+of `n` alone**: producers that keep enqueueing already-expired probes keep a consumer busy (`popMany_fed_witness`).  What
+holds, for every interleaving: the number of storage commands the call executes is at most
+`2 · (n + number of expired entries it dropped) + 2` (`popMany_own_commands_bounded`) — every command but the last
+consumes at least half an entry — and a command of a live call is never refused or repeated (`popMany_command_progress`:
+one `qstep`, for every store / clock the other clients may have left).  The honest fairness hypothesis for "terminates" is
+therefore: *only finitely many expired entries are ever offered to it*. -/
+namespace Swat4.C12
+open Swat4 Std
+
+/-- **one command = one unit of progress, whatever the others did** (machine level): for every store, clock and id
+counter — i.e. whatever other clients did since the call's previous command — a command of a live `PopMany n` call
+strictly raises the potential `QPC.prog` (twice the entries consumed so far: held + counted expired, plus the position
+in the round), and leaves the call at a `PopMany` pc.  There is no command that is retried. -/
+theorem popMany_command_progress (st : RStore) (clock : Int) (fresh : Nat) (n : Int) (pc : QPC) (hl : pc.live = true)
+    (hok : okFor (.popMany n) pc) :
+    pc.prog < (qstep st clock fresh (.popMany n) pc).2.1.prog ∧
+    okFor (.popMany n) (qstep st clock fresh (.popMany n) pc).2.1 :=
+  qstep_pop_prog st clock fresh n pc hl hok
+
+/-- **bound on a `PopMany` call's own commands in any interleaving.**  From any admissible initial system in which client
+`i` is a `PopMany n` call, along **every** event list (other consumers and producers stepping in between, ticks of either
+sign, deaths), the number of storage commands client `i` executes (`QSys.ownCmds`: the trace labels the model emits for
+`i`'s events) is at most `2 · (n + E) + 2`, where `E = expOf i pops` is the number of expired entries the call has dropped
+so far.  In particular a call that meets no expired entry executes at most `2n + 2` commands. -/
+theorem popMany_own_commands_bounded (s0 : QSys) (h0 : s0.Init) (i : Nat) (c0 : QClient) (n : Int)
+    (hc0 : s0.clients[i]? = some c0) (hop0 : c0.op = .popMany n) (es : List QSysEv) :
+    QSys.ownCmds i s0 es ≤ 2 * (n.toNat + expOf i (reach s0 es).pops) + 2 := by
+  have hP0 : s0.PopAt i n := by
+    refine ⟨c0, hc0, hop0, fun hs => ?_⟩
+    rw [(h0.clients c0 (List.mem_of_getElem? hc0)).2 hs, ← hop0]
+    exact okFor_begin c0.op
+  obtain ⟨⟨c, hc, hop, _⟩, hle⟩ := QSys.ownCmds_le_prog hP0 es
+  have hrun : s0.run es = (reach s0 es).sys := (ghost_faithful s0 es).symm
+  rw [hrun] at hc hle
+  have hprog : (reach s0 es).sys.progOf i = c.prog := by simp only [QSys.progOf, hc]
+  rw [hprog] at hle
+  suffices hb : c.prog ≤ 2 * (n.toNat + expOf i (reach s0 es).pops) + 2 by omega
+  unfold QClient.prog
+  by_cases hs : c.started = true
+  · simp only [hs, if_true]
+    have h := (((GInv.init h0).run es).clients i c hc).pc hs
+    rw [hop] at h
+    cases hpc : c.pc with
+    | popRange got e =>
+      rw [hpc] at h
+      have h1 : e = expOf i (reach s0 es).pops := h.2.1
+      have h2 := h.2.2
+      simp only [QPC.prog]; omega
+    | popExec got e ids scs =>
+      rw [hpc] at h
+      have h1 : e = expOf i (reach s0 es).pops := h.2.1
+      have h2 := h.2.2.2.1
+      simp only [QPC.prog]; omega
+    | done r =>
+      rw [hpc] at h
+      cases r with
+      | probes ps e =>
+        have h1 : e = expOf i (reach s0 es).pops := h.2.1
+        have h2 := h.2.2
+        simp only [QPC.prog]; omega
+      | _ => simp [QPC.prog]
+    | _ => simp [QPC.prog]
+  · have hs' : c.started = false := by simpa using hs
+    simp only [hs', Bool.false_eq_true, if_false]
+    rw [hop]
+    simp only [QOp.begin]
+    split <;> simp [QPC.prog]
+
+/-- a `step` event of a client that is not dead and stands at a live pc always executes exactly one command (so the
+bound above is a bound on how often the call can be *scheduled* before it has returned) -/
+theorem live_step_executes (s : QSys) (i : Nat) (c : QClient) (hc : s.clients[i]? = some c) (hd : c.dead = false)
+    (hl : (c.start s.clock).pc.live = true) : (s.stepT [] (.step i)).2.length = 1 := by
+  simp [QSys.stepT, QSys.stepClient, hc, hd, hl]
+
+def xp1 : Probe := ⟨⟨1, 10481⟩, 10481, .details, 0, 3⟩
+
+/-- clock 100; three producers each enqueue a probe that is already expired (implicit ready time 100, expiry 50 — see
+`implicit_ready_past_expiry_is_queued`); consumer 3 is a `PopMany 1` -/
+def fed : QSys :=
+  { clock := 100
+    clients := [{ op := .enqueue xp1 none (some 50), pc := .start },
+                { op := .enqueue xp1 none (some 50), pc := .start },
+                { op := .enqueue xp1 none (some 50), pc := .start },
+                { op := .popMany 1, pc := .start }] }
+
+/-- a producer runs before each round of the consumer -/
+def fedEvents : List QSysEv :=
+  [.run 0, .step 3, .step 3, .run 1, .step 3, .step 3, .run 2, .step 3, .step 3, .step 3]
+
+theorem fed_init : fed.Init := by
+  refine ⟨RStore.consistent_empty, fun id => by simp [fed], ?_⟩
+  intro c hc
+  simp only [fed, List.mem_cons, List.not_mem_nil, or_false] at hc
+  rcases hc with rfl | rfl | rfl | rfl <;> exact ⟨rfl, fun h => by cases h⟩
+
+set_option maxRecDepth 100000 in
+/-- **no bound in `n` alone** (`popMany_fed_witness`): fed one expired entry before each round, a `PopMany 1` executes 7
+commands (three full rounds and the final empty `ZRANGEBYSCORE`) and returns an empty batch with 3 counted expired; with
+`k` such producers it executes `2k + 1`.  The bound of `popMany_own_commands_bounded` is `2·(1+3)+2 = 10` here. -/
+theorem popMany_fed_witness :
+    fed.Init ∧ QSys.ownCmds 3 fed fedEvents = 7 ∧
+    ((reach fed fedEvents).sys.clients[3]?).map (·.pc) = some (.done (.probes [] 3)) ∧
+    expOf 3 (reach fed fedEvents).pops = 3 :=
+  ⟨fed_init, by rfl, by rfl, by rfl⟩
+
+/-- non-vacuity of `popMany_own_commands_bounded` on that schedule -/
+example : QSys.ownCmds 3 fed fedEvents ≤ 2 * ((1 : Int).toNat + expOf 3 (reach fed fedEvents).pops) + 2 :=
+  popMany_own_commands_bounded fed fed_init 3 { op := .popMany 1, pc := .start } 1 rfl rfl fedEvents
+
+end Swat4.C12
+
+/-! # Additions (review round 2), continued: the explicit-bounds clause at the system level -/
+namespace Swat4.C12
+open Swat4 Std
+
+/-- **`never_queued_explicit_sys`** (the clause that holds, for every interleaving): at every reachable state, every
+accepted enqueue record `e` was made by client `e.client`, which is the call `enqueue e.probe after e.expires`; and **if
+that call's ready time was explicit** (`after = some a`) the record's ready time is `a` and it is **strictly before** an
+explicit expiry.  So a queued probe whose ready time is not earlier than its expiry can only stem from an *implicit*
+ready time (`ready_past_expiry_only_implicit`) — the case `implicit_ready_past_expiry_is_queued` exhibits.  (The ghost
+record does not store the flag "explicit"; it is recovered from the producing client, whose `op` never changes.) -/
+theorem never_queued_explicit_sys (s0 : QSys) (h0 : s0.Init) (es : List QSysEv) (e : GEnq) (he : e ∈ (reach s0 es).enqs) :
+    ∃ (c : QClient) (after : GoTime), (reach s0 es).sys.clients[e.client]? = some c ∧
+      c.op = .enqueue e.probe after e.expires ∧
+      ∀ a, after = some a → e.ready = a ∧ ∀ b, e.expires = some b → a < b :=
+  ((EnqInv.init h0).run es).owner e he
+
+/-- an accepted enqueue whose ready time is not earlier than its expiry was made with an implicit ready time -/
+theorem ready_past_expiry_only_implicit (s0 : QSys) (h0 : s0.Init) (es : List QSysEv) (e : GEnq)
+    (he : e ∈ (reach s0 es).enqs) (x : Int) (hx : e.expires = some x) (hge : x ≤ e.ready) :
+    ∃ c, (reach s0 es).sys.clients[e.client]? = some c ∧ c.op = .enqueue e.probe none (some x) := by
+  obtain ⟨c, after, hc, hop, hexp⟩ := never_queued_explicit_sys s0 h0 es e he
+  cases after with
+  | none => exact ⟨c, hc, by rw [hop, hx]⟩
+  | some a =>
+    obtain ⟨h1, h2⟩ := hexp a rfl
+    have := h2 x hx
+    omega
+
+set_option maxRecDepth 100000 in
+/-- non-vacuity: on the witness system (producer 0: `enqueue wp1 (some 50) none`) the record of the accepted enqueue is
+attributed to client 0 with the explicit ready time 50 -/
+example : ∃ c, (reach witness [.run 0]).sys.clients[0]? = some c ∧ c.op = .enqueue wp1 (some 50) none := by
+  have henqs : (reach witness [.run 0]).enqs = [⟨0, 0, wp1, none, 50, 100⟩] := by rfl
+  obtain ⟨c, after, hc, hop, hexp⟩ := never_queued_explicit_sys witness witness_init [.run 0] ⟨0, 0, wp1, none, 50, 100⟩
+    (by rw [henqs]; exact List.mem_singleton.2 rfl)
+  have hop0 : ((reach witness [.run 0]).sys.clients[0]?).map (·.op) = some (.enqueue wp1 (some 50) none) := by rfl
+  exact ⟨c, hc, by
+    have hc' : (reach witness [.run 0]).sys.clients[0]? = some c := hc
+    rw [hc'] at hop0
+    simpa using hop0⟩
+
+end Swat4.C12
+
+/-! ### non-vacuity of the remaining additions -/
+namespace Swat4.C12
+open Swat4 Std
+
+/-- `queued_otherwise` / `never_queued_explicit`: explicit `after` before explicit `before`, and an implicit `after` -/
+example : (QOp.enqueue wp1 (some 5) (some 7)).begin = .start ∧ (QOp.enqueue wp1 none (some 7)).begin = .start ∧
+    (QOp.enqueue wp1 (some 7) (some 7)).begin = .done .unit :=
+  ⟨queued_otherwise _ _ _ (by rintro ⟨a, b, ha, hb, h⟩; cases ha; cases hb; exact absurd h (by decide)),
+   queued_otherwise _ _ _ (by rintro ⟨a, b, ha, _⟩; cases ha),
+   (never_queued_explicit _ _ _).2 ⟨7, 7, rfl, rfl, by decide⟩⟩
+
+/-- `popMany_command_progress` at the first pc of a `PopMany 1` -/
+example (st : RStore) : (QPC.popRange [] 0).prog < (qstep st 0 0 (.popMany 1) (.popRange [] 0)).2.1.prog :=
+  (popMany_command_progress st 0 0 1 (.popRange [] 0) rfl trivial).1
+
+/-- `live_step_executes`: the (unstarted) consumer of `fed` is not dead and starts at a live pc -/
+example : (fed.stepT [] (.step 3)).2.length = 1 :=
+  live_step_executes fed 3 { op := .popMany 1, pc := .start } rfl rfl rfl
+
+set_option maxRecDepth 100000 in
+/-- `ready_eq_expiry_only_at_instant` on `atExpiry`: the record was returned, and its pop batch ran at clock 100 = expiry -/
+example : (100 : Int) = 100 := by
+  have harr : ∀ c ∈ atExpiry.clients, c.started = true → c.arrival ≤ atExpiry.clock := by
+    intro c hc hs
+    simp only [atExpiry, List.mem_cons, List.not_mem_nil, or_false] at hc
+    rcases hc with rfl | rfl <;> cases hs
+  have hinit : atExpiry.Init := by
+    refine ⟨RStore.consistent_empty, fun id => by simp [atExpiry], ?_⟩
+    intro c hc
+    simp only [atExpiry, List.mem_cons, List.not_mem_nil, or_false] at hc
+    rcases hc with rfl | rfl <;> exact ⟨rfl, fun h => by cases h⟩
+  have hm : Monotone [.run 0, .run 1] := by
+    intro e he
+    simp only [List.mem_cons, List.not_mem_nil, or_false] at he
+    rcases he with rfl | rfl <;> trivial
+  have henqs : (reach atExpiry [.run 0, .run 1]).enqs = [⟨0, 0, wp1, some 100, 100, 100⟩] := by rfl
+  have hpops := ready_eq_expiry_delivered_witness.1
+  exact (ready_eq_expiry_only_at_instant atExpiry hinit harr [.run 0, .run 1] hm ⟨0, 0, wp1, some 100, 100, 100⟩
+    (by rw [henqs]; exact List.mem_singleton.2 rfl) 100 rfl rfl ⟨0, 1, wp1, some 100, some 100, 100, true⟩
+    (by rw [hpops]; exact List.mem_singleton.2 rfl) rfl rfl).symm
+
+set_option maxRecDepth 100000 in
+/-- `ready_past_expiry_only_implicit` on `pastExpiry`: the record with ready 100 ≥ expiry 50 stems from `enqueue wp1 none (some 50)` -/
+example : ∃ c, (reach pastExpiry [.run 0]).sys.clients[0]? = some c ∧ c.op = .enqueue wp1 none (some 50) := by
+  have henqs : (reach pastExpiry [.run 0]).enqs = [⟨0, 0, wp1, some 50, 100, 100⟩] := by rfl
+  exact ready_past_expiry_only_implicit pastExpiry pastExpiry_init [.run 0] ⟨0, 0, wp1, some 50, 100, 100⟩
+    (by rw [henqs]; exact List.mem_singleton.2 rfl) 50 rfl (by decide)
+
+end Swat4.C12
+
